@@ -40,7 +40,7 @@ def run(pid, tier, replay):
     chk = core.Check(pid, "model_checking", tier)
     rm.local_known(chk, ["C23"])
     feats = () if chk.quick else ("vsock",)
-    binp = core.build("rules", features=feats)
+    binp = rm.build("rules", features=feats)
     if replay:
         return do_replay(chk, binp, replay)
     rm.stage(chk, "start")
